@@ -6,6 +6,8 @@
   sink <sid> <n.p> seq|bag               add a sink                                          -> ok
   perturb <stage> <fresh> <target> <k>   (C22) add a shape perturbation of the variant       -> ok
   vnode <id> <op> [args] <- <n.p> ..     (C22) explicit node of the variant program          -> ok
+  sched <ids,..|ids,..>                  (C22) the real partition: checked to be a well-formed order of the
+                                         program's nodes; later `tick`s run subgraph by subgraph     -> ok
   tick <t> <vals>|<vals>|...             run tick t of the program on the external inputs    -> sink outputs
   vtick <t> <vals>|...                   same for the perturbed variant                      -> sink outputs
 A value is `n`, `(v,v)` or `()`; a stream is `v;v;..` or `-`.  Sink outputs: streams joined by `|`,
@@ -142,6 +144,7 @@ structure St where
   sinks : List (Ref × String) := []
   perts : List Perturbation := []
   vnodes : List Node := []         -- explicit variant program (`vnode` lines), if any
+  sched : Option (List (List Node)) := none   -- the real partition (`sched` line), if given
   σ : States := States.init
   σv : States := States.init
 
@@ -155,7 +158,9 @@ def variantNodes (st : St) : List Node :=
 def doTick (st : St) (variant : Bool) (t : Nat) (extS : String) : Option (St × String) := do
   let ext ← (extS.splitOn "|").mapM parseStream
   let ns := if variant then variantNodes st else st.nodes
-  let r := evalTick t ext ns (if variant then st.σv else st.σ)
+  let r := match variant, st.sched with
+    | false, some sch => runScheduleB t ext sch st.σ
+    | _, _ => evalTick t ext ns (if variant then st.σv else st.σ)
   let out := "|".intercalate (st.sinks.map fun (rf, mode) => showStream mode (lookup r.2 rf))
   some (if variant then { st with σv := r.1 } else { st with σ := r.1 }, out)
 
@@ -181,6 +186,17 @@ def step (st : St) (line : String) : St × String :=
     match parseStage s, f.toNat?, tg.toNat?, k.toNat? with
     | some s, some f, some tg, some k => ({ st with perts := st.perts ++ [⟨s, f, tg, k⟩] }, "ok")
     | _, _, _, _ => (st, "bad-op")
+  | ["sched", sch] =>
+    -- the real partition: subgraphs `|`-separated, node ids `,`-separated, in execution order
+    let groups := (sch.splitOn "|").map fun g => (g.splitOn ",").filterMap String.toNat?
+    let lookupNode (i : Nat) : Option Node := st.nodes.find? (fun n => n.id == i)
+    match groups.mapM (fun g => g.mapM lookupNode) with
+    | some sg =>
+      let flat := sg.flatten
+      let idsA := (flat.map Node.id).toArray.qsort (· < ·)
+      let idsB := (st.nodes.map Node.id).toArray.qsort (· < ·)
+      if idsA == idsB && wfFromB [] flat then ({ st with sched := some sg }, "ok") else (st, "not-a-valid-schedule")
+    | none => (st, "bad-op")
   | ["tick", t, ext] =>
     match t.toNat? with
     | some t => match doTick st false t ext with | some r => r | none => (st, "bad-op")
